@@ -38,6 +38,8 @@ struct St {
     /// which thread was chosen at each step, and whether it was chosen to retry a lock it had found taken
     chosen: Vec<usize>,
     chosen_retry: Vec<bool>,
+    /// option 0 at this step = let the arriving thread go on (so any other option is a preemption)
+    cont0: Vec<bool>,
     error: Option<String>,
     deadlock: bool,
     points: u64,
@@ -60,6 +62,16 @@ fn sched() -> &'static Sched {
 }
 
 const HORIZON: usize = 400;
+
+/// When set, tracing events emitted by scheduled threads are scheduling points too (builds with rsactor's
+/// `tracing` feature emit debug events inside its send paths and lifecycle code).
+static TRACE_POINTS: std::sync::atomic::AtomicBool = std::sync::atomic::AtomicBool::new(false);
+
+pub fn trace_point() {
+    if TRACE_POINTS.load(std::sync::atomic::Ordering::Relaxed) {
+        hook(Point::Atomic);
+    }
+}
 
 /// Pick the next thread to run (called with the state locked). `me` = the thread that arrived here, if it can go on.
 fn pick_next(st: &mut St, me: Option<usize>) {
@@ -109,6 +121,7 @@ fn pick_next(st: &mut St, me: Option<usize>) {
     }
     st.choices.push(idx as u8);
     st.options.push(enabled.len() as u8);
+    st.cont0.push(me.is_some() && Some(enabled[0]) == me);
     st.chosen.push(enabled[idx]);
     st.chosen_retry.push(matches!(st.stat[enabled[idx]], Stat::Busy(_)));
     st.current = Some(enabled[idx]);
@@ -173,6 +186,7 @@ fn thread_end(me: usize) {
 pub struct Exec {
     pub choices: Vec<u8>,
     pub options: Vec<u8>,
+    pub cont0: Vec<bool>,
     pub error: Option<String>,
     pub deadlock: bool,
     pub points: u64,
@@ -240,7 +254,7 @@ pub fn run_threads(prefix: &[u8], bodies: Vec<Box<dyn FnOnce() + Send>>) -> Exec
     if body_panicked && error.is_none() {
         error = Some("a thread body panicked".into());
     }
-    Exec { choices: st.choices.clone(), options: st.options.clone(), error, deadlock: st.deadlock, points: st.points }
+    Exec { choices: st.choices.clone(), options: st.options.clone(), cont0: st.cont0.clone(), error, deadlock: st.deadlock, points: st.points }
 }
 
 // ------------------------------------------------------------------ scenarios
@@ -305,7 +319,19 @@ pub struct Outcome {
     pub violations: Vec<(String, String)>,
 }
 
-pub const SCENARIOS: &[&str] = &["ids-3x2", "ids-2x3-mixed", "dl-3x2", "dl-2x3-mixed", "ring2", "ring3", "ring2-plus-bystander"];
+pub const SCENARIOS: &[&str] = &[
+    "ids-3x2",
+    "ids-2x3-mixed",
+    "dl-3x2",
+    "dl-2x3-mixed",
+    "ring2",
+    "ring3",
+    "ring2-plus-bystander",
+    "ask-vs-kill",
+    "ask-vs-stop",
+    "ask-vs-drop",
+    "tell-vs-stop",
+];
 
 pub fn scenarios_for(prop: &str) -> Vec<&'static str> {
     SCENARIOS
@@ -315,6 +341,8 @@ pub fn scenarios_for(prop: &str) -> Vec<&'static str> {
             "C11" => s.starts_with("ids"),
             "C13" => s.starts_with("dl") && cfg!(feature = "f_testutils"),
             "C14" | "C15" => s.starts_with("ring") && cfg!(feature = "f_deadlock"),
+            "C03" => s.starts_with("ask-vs") && cfg!(feature = "f_tracing"),
+            "C01" => (s.starts_with("ask-vs") || s.starts_with("tell-vs")) && cfg!(feature = "f_tracing"),
             _ => true,
         })
         .collect()
@@ -330,6 +358,7 @@ pub fn run_scenario(scenario: &str, prefix: &[u8]) -> (Exec, Outcome) {
         "ids-3x2" | "ids-2x3-mixed" => run_ids(scenario, prefix),
         "dl-3x2" | "dl-2x3-mixed" => run_dl(scenario, prefix),
         "ring2" | "ring3" | "ring2-plus-bystander" => run_ring(scenario, prefix),
+        "ask-vs-kill" | "ask-vs-stop" | "ask-vs-drop" | "tell-vs-stop" => run_send_vs_end(scenario, prefix),
         other => panic!("unknown tsched scenario {other}"),
     }
 }
@@ -538,6 +567,163 @@ fn run_ring(scenario: &str, prefix: &[u8]) -> (Exec, Outcome) {
     (ex, Outcome { summary: format!("victims={victims:?} log={l:?}"), violations: v })
 }
 
+/// One thread sends (ask or tell) from its own runtime while another thread ends the actor (kill, stop, or the
+/// last other reference dropped) and drives the actor's runtime; tracing events inside rsactor's send path and
+/// lifecycle are scheduling points (tracing build), so the end can fall between any two of the sender's steps.
+fn run_send_vs_end(scenario: &str, prefix: &[u8]) -> (Exec, Outcome) {
+    use futures::FutureExt;
+    struct Served {
+        handled: Arc<Mutex<Vec<String>>>,
+    }
+    impl Actor for Served {
+        type Args = Arc<Mutex<Vec<String>>>;
+        type Error = String;
+        async fn on_start(a: Self::Args, _: &ActorRef<Self>) -> Result<Self, String> {
+            Ok(Served { handled: a })
+        }
+        async fn on_stop(&mut self, _: &rsactor::ActorWeak<Self>, killed: bool) -> Result<(), String> {
+            self.handled.lock().unwrap().push(format!("on_stop({killed})"));
+            Ok(())
+        }
+    }
+    impl Message<Ping> for Served {
+        type Reply = u32;
+        async fn handle(&mut self, _: Ping, _: &ActorRef<Self>) -> u32 {
+            self.handled.lock().unwrap().push("handled".into());
+            7
+        }
+    }
+    let log: Arc<Mutex<Vec<String>>> = Arc::new(Mutex::new(Vec::new()));
+    let rt_actor = Arc::new(idle_rt());
+    let rt_sender = Arc::new(idle_rt());
+    let (aref, mut jh) = {
+        let _g = rt_actor.enter();
+        rsactor::spawn_with_mailbox_capacity::<Served>(log.clone(), 2)
+    };
+    // the actor starts up before the controlled phase
+    rt_actor.block_on(async {
+        for _ in 0..4 {
+            tokio::task::yield_now().await;
+        }
+    });
+    let result: Arc<Mutex<Option<String>>> = Arc::new(Mutex::new(None));
+    let is_ask = scenario.starts_with("ask");
+    let sender_ref = aref.clone();
+    let mut bodies: Vec<Box<dyn FnOnce() + Send>> = Vec::new();
+    {
+        let rt = rt_sender.clone();
+        let result = result.clone();
+        bodies.push(Box::new(move || {
+            let r = sender_ref;
+            rt.spawn(async move {
+                let out = if is_ask {
+                    match r.ask(Ping).await {
+                        Ok(v) => format!("Ok({v})"),
+                        Err(e) => format!("Err({})", err_kind(&e)),
+                    }
+                } else {
+                    match r.tell(Ping).await {
+                        Ok(()) => "Ok".to_string(),
+                        Err(e) => format!("Err({})", err_kind(&e)),
+                    }
+                };
+                *result.lock().unwrap() = Some(out);
+            });
+            rt.block_on(async {
+                for _ in 0..8 {
+                    tokio::task::yield_now().await;
+                }
+            });
+        }));
+    }
+    {
+        let rt = rt_actor.clone();
+        let how = scenario.to_string();
+        let ender = aref;
+        bodies.push(Box::new(move || {
+            if how.ends_with("kill") {
+                let _ = ender.kill();
+            } else if how.ends_with("stop") {
+                let _ = ender.stop().now_or_never();
+            }
+            drop(ender);
+            rt.block_on(async {
+                for _ in 0..8 {
+                    tokio::task::yield_now().await;
+                }
+            });
+        }));
+    }
+    TRACE_POINTS.store(true, std::sync::atomic::Ordering::SeqCst);
+    let ex = run_threads(prefix, bodies);
+    TRACE_POINTS.store(false, std::sync::atomic::Ordering::SeqCst);
+    // settle, unscheduled
+    for _ in 0..4 {
+        for rt in [&rt_actor, &rt_sender] {
+            rt.block_on(async {
+                for _ in 0..8 {
+                    tokio::task::yield_now().await;
+                }
+            });
+        }
+    }
+    let ended = rt_actor.block_on(async { (&mut jh).now_or_never() }).is_some();
+    let res = result.lock().unwrap().clone();
+    let l = log.lock().unwrap().clone();
+    let handled = l.iter().any(|x| x == "handled");
+    let mut v = Vec::new();
+    if ex.error.is_none() {
+        match &res {
+            None => {
+                if ended {
+                    v.push((
+                        if is_ask { "C03 no ask is pending on an ended actor" } else { "C01 a send to an ended actor returns" }.to_string(),
+                        format!("the actor has ended (log {l:?}) and the sender is still waiting"),
+                    ));
+                } else if scenario.ends_with("drop") {
+                    // the sender's own reference keeps the actor alive only while the send is pending: once the
+                    // message is in, it must be handled and answered
+                    v.push(("C03 every ask completes".to_string(), format!("the actor is alive, the message was sent, yet the sender is still waiting; log {l:?}")));
+                } else {
+                    v.push(("C07 ends when stopped".to_string(), format!("the actor was told to end and is still running; log {l:?}")));
+                }
+            }
+            Some(r) => {
+                let rejected = r == "Err(Send)" || (!is_ask && r.starts_with("Err"));
+                if rejected && handled {
+                    v.push(("C01 a failed send is never handled".to_string(), format!("the sender got {r} but the handler ran")));
+                }
+                if r == "Ok(7)" && !handled {
+                    v.push(("C03 reply integrity".to_string(), format!("the sender got {r} but the handler never ran")));
+                }
+                if !is_ask && r == "Ok" && !handled && scenario.ends_with("stop") && ended {
+                    // a tell accepted ahead of ... no: the stop marker may have been queued first; then the tell is
+                    // accepted behind it and legitimately dropped at the end. Nothing to conclude.
+                }
+                if scenario.ends_with("drop") && r != "Ok(7)" {
+                    v.push(("C07 a held reference keeps the actor serving".to_string(), format!("the sender held a strong reference throughout, its ask got {r}")));
+                }
+            }
+        }
+    }
+    drop(jh);
+    for rt in [rt_actor, rt_sender] {
+        if let Ok(rt) = Arc::try_unwrap(rt) {
+            rt.shutdown_background();
+        }
+    }
+    (ex, Outcome { summary: format!("result={res:?} ended={ended} log={l:?}"), violations: v })
+}
+
+fn err_kind(e: &rsactor::Error) -> &'static str {
+    match e {
+        rsactor::Error::Send { .. } => "Send",
+        rsactor::Error::Receive { .. } => "Receive",
+        rsactor::Error::Timeout { .. } => "Timeout",
+        _ => "Other",
+    }
+}
+
 // ------------------------------------------------------------------ exploration
 
 #[derive(Serialize, Deserialize, Clone, Debug)]
@@ -557,12 +743,23 @@ pub struct Report {
     pub max_depth: usize,
     pub distinct_outcomes: usize,
     pub exhaustive: bool,
+    /// preemption bound (None = every interleaving)
+    pub bound: Option<u32>,
     pub machinery_error: Option<String>,
     pub found: Vec<Found>,
 }
 
-pub fn explore(scenario: &str, cap: u64) -> Report {
-    let mut rep = Report { scenario: scenario.to_string(), exhaustive: true, ..Default::default() };
+/// Preemption bound per scenario: the atomics-only scenarios are explored without one.
+pub fn bound_for(scenario: &str, thorough: bool) -> Option<u32> {
+    if scenario.starts_with("ask-vs") || scenario.starts_with("tell-vs") {
+        Some(if thorough { 5 } else { 3 })
+    } else {
+        None
+    }
+}
+
+pub fn explore(scenario: &str, cap: u64, bound: Option<u32>) -> Report {
+    let mut rep = Report { scenario: scenario.to_string(), exhaustive: true, bound, ..Default::default() };
     let mut distinct: std::collections::HashSet<String> = Default::default();
     let mut stack: Vec<Vec<u8>> = vec![vec![]];
     while let Some(prefix) = stack.pop() {
@@ -588,6 +785,13 @@ pub fn explore(scenario: &str, cap: u64) -> Report {
             rep.found.push(Found { scenario: scenario.to_string(), schedule: ex.choices.clone(), violations: out.violations.clone(), summary: out.summary.clone(), recurred });
         }
         for i in (prefix.len()..ex.choices.len()).rev() {
+            // preemptions spent before step i (the prefix is part of this execution's choices)
+            let spent = (0..i).filter(|k| ex.cont0[*k] && ex.choices[*k] != 0).count() as u32;
+            if let Some(b) = bound {
+                if ex.cont0[i] && spent + 1 > b {
+                    continue;
+                }
+            }
             for alt in (1..ex.options[i]).rev() {
                 let mut p = ex.choices[..i].to_vec();
                 p.push(alt);
